@@ -4,7 +4,7 @@
 From Coq Require Import Reals List Arith Lra.
 From Coquelicot Require Import Coquelicot.
 From OSU.Model Require Import Estimators.
-From OSU.Proofs Require Import Estimators Estimators2 Estimators3 Estimators4 Estimators5.
+From OSU.Proofs Require Import Estimators Estimators2 Estimators3 Estimators4 Estimators5 Estimators6.
 Import ListNotations.
 Open Scope R_scope.
 
@@ -116,6 +116,48 @@ Theorem residual_rotation_uniform : forall t0 dl c n k,
     norm4 (constraints (rotm (INR k * dl) l) (rotm (INR k * dl) mo) (map (fun _ => c) (ugrid t0 dl n)) (ugrid t0 dl n))
     = norm4 (constraints l mo (map (fun _ => c) (ugrid t0 dl n)) (ugrid t0 dl n)).
 Proof. exact residual_rotation_uniform. Qed.
+
+(* ---- uniform grid starting at 0 (np.linspace(0,360,N)), mirror: the output is reversed, D'_j = D_{(N-j) mod N} *)
+Theorem mem_mirror_uniform : forall dl n,
+  (0 < n)%nat -> INR n * dl = 2 * PI ->
+  forall m, mem4 (ugrid 0 dl n) (mirm m) = option_map (perm_list (rev_idx n)) (mem4 (ugrid 0 dl n) m).
+Proof. exact mem_mirror_uniform. Qed.
+
+Theorem dist_mirror_uniform : forall dl n,
+  (0 < n)%nat -> INR n * dl = 2 * PI -> forall c, 0 < c ->
+  forall l, dist (mirm l) (map (fun _ => c) (ugrid 0 dl n)) (ugrid 0 dl n)
+            = perm_list (rev_idx n) (dist l (map (fun _ => c) (ugrid 0 dl n)) (ugrid 0 dl n)).
+Proof. exact dist_mirror_uniform. Qed.
+
+Theorem constraints_mirror_uniform : forall dl n,
+  (0 < n)%nat -> INR n * dl = 2 * PI -> forall c, 0 < c ->
+  forall l mo,
+    constraints (mirm l) (mirm mo) (map (fun _ => c) (ugrid 0 dl n)) (ugrid 0 dl n)
+    = mirm (constraints l mo (map (fun _ => c) (ugrid 0 dl n)) (ugrid 0 dl n)).
+Proof. exact constraints_mirror_uniform. Qed.
+
+Theorem residual_mirror_uniform : forall dl n,
+  (0 < n)%nat -> INR n * dl = 2 * PI -> forall c, 0 < c ->
+  forall l mo,
+    norm4 (constraints (mirm l) (mirm mo) (map (fun _ => c) (ugrid 0 dl n)) (ugrid 0 dl n))
+    = norm4 (constraints l mo (map (fun _ => c) (ugrid 0 dl n)) (ugrid 0 dl n)).
+Proof. exact residual_mirror_uniform. Qed.
+
+(* what the re-indexings are: entry j of the rotated list is entry (j - k) mod N, of the reversed list entry (N - j) mod N *)
+Theorem rotl_list_nth : forall k l j, (j < length l)%nat ->
+  nth j (rotl_list k l) 0 = nth ((j + length l - k) mod length l) l 0.
+Proof. exact rotl_list_nth. Qed.
+
+Theorem revl_nth : forall l j, (0 < j < length l)%nat ->
+  nth j (perm_list (rev_idx (length l)) l) 0 = nth (length l - j) l 0.
+Proof. exact revl_nth. Qed.
+
+(* derivative of one entry of the distribution: d D_j / d lambda_n = -D_j (T_n(j) - <T_n>) *)
+Theorem dist_entry_derivative : forall l d th n t,
+  th <> [] -> length d = length th -> List.Forall (fun x => 0 < x) d ->
+  is_derive (fun x => Ef (set4 l n x) t / Zf (set4 l n x) d th) (get4 l n)
+            (- (Ef l t / Zf l d th) * (tw n t - Pf n l d th / Zf l d th)).
+Proof. exact dist_entry_derivative. Qed.
 
 (* the grid of as_frequency_direction_spectrum is such a grid *)
 Theorem to_rad_linspace : forall n, (0 < n)%nat -> to_rad (linspace360 n) = ugrid 0 (2 * PI / INR n) n.
